@@ -494,3 +494,66 @@ where
     };
     newton_raphson_onesided(x0, f0, f1)
 }
+
+#[cfg(feature = "verif")]
+impl<T> crate::verif_hooks::NonsymView<T> for GenPowerCone<T>
+where
+    T: FloatT,
+{
+    fn v_is_primal_feasible(&self, s: &[T]) -> bool {
+        self.is_primal_feasible(s)
+    }
+    fn v_is_dual_feasible(&self, z: &[T]) -> bool {
+        self.is_dual_feasible(z)
+    }
+    fn v_barrier_primal(&mut self, s: &[T]) -> T {
+        self.barrier_primal(s)
+    }
+    fn v_barrier_dual(&mut self, z: &[T]) -> T {
+        self.barrier_dual(z)
+    }
+    fn v_higher_correction(&mut self, _ds: &[T], _v: &[T]) -> Option<Vec<T>> {
+        None
+    }
+    fn v_update_dual_grad_H(&mut self, z: &[T]) {
+        self.update_dual_grad_H(z);
+        self.data.z.copy_from(z);
+    }
+    fn v_gradient_primal(&self, s: &[T]) -> Vec<T> {
+        let mut g = vec![T::zero(); self.dim()];
+        self.gradient_primal(&mut g, s);
+        g
+    }
+    fn v_grad(&self) -> Vec<T> {
+        self.data.grad.clone()
+    }
+    fn v_H_dual(&self) -> Vec<Vec<T>> {
+        // H = D + pp' - qq' - rr' with D = diag(d1, d2*I)
+        let n = self.dim();
+        let dim1 = self.dim1();
+        let d = &self.data;
+        let mut h = vec![vec![T::zero(); n]; n];
+        for i in 0..n {
+            h[i][i] = if i < dim1 { d.d1[i] } else { d.d2 };
+            for j in 0..n {
+                h[i][j] += d.p[i] * d.p[j];
+                if i < dim1 && j < dim1 {
+                    h[i][j] -= d.q[i] * d.q[j];
+                }
+                if i >= dim1 && j >= dim1 {
+                    h[i][j] -= d.r[i - dim1] * d.r[j - dim1];
+                }
+            }
+        }
+        h
+    }
+    fn v_Hs(&self) -> Vec<Vec<T>> {
+        let mut h = self.v_H_dual();
+        for row in h.iter_mut() {
+            for v in row.iter_mut() {
+                *v *= self.data.μ;
+            }
+        }
+        h
+    }
+}
